@@ -93,9 +93,9 @@ def run_one(sh, case, driver='generated'):
     def as_layout(a):
         # same values, another memory layout (Fortran order / non-contiguous view)
         if layout == 'F':
-            return np.asfortranarray(a)
+            return np.asfortranarray(np.array(a, copy=True))
         if layout == 'T':
-            return np.ascontiguousarray(np.moveaxis(a, 0, 1)).swapaxes(0, 1)
+            return np.ascontiguousarray(np.moveaxis(np.array(a, copy=True), 0, 1)).swapaxes(0, 1)
         return np.array(a, copy=True)
     sh.note('layout=' + layout)
     import sys
@@ -136,7 +136,21 @@ def run_one(sh, case, driver='generated'):
                             sh.note('group_object_refitted:%s->%s' % (list(prev.shape[:-1]), [n0, n1]))
                         except Exception:
                             sh.note('group_object_first_fit_raised')
-                    bg.fit(as_layout(sigs), fs, fr, axis=axis, n_jobs=case['n_jobs'], progress=case.get('progress'))
+                    arr = as_layout(sigs)
+                    if case.get('buffer_history'):
+                        # the same array OBJECT was fitted before while it held other samples (a re-used acquisition buffer)
+                        saved = dict(poollog.STATE)
+                        poollog.STATE['log'], poollog.STATE['delays'] = None, {}
+                        try:
+                            arr[...] = sigs[::-1, ::-1]
+                            bg.fit(arr, fs, fr, axis=axis, n_jobs=1)
+                            sh.note('group_object_fitted_before_on_the_same_array_object')
+                        except Exception:
+                            sh.note('group_object_first_fit_raised')
+                        finally:
+                            poollog.STATE.update(saved)
+                            arr[...] = sigs
+                    bg.fit(arr, fs, fr, axis=axis, n_jobs=case['n_jobs'], progress=case.get('progress'))
                     res = bg.df_features
                     if len(bg.models) != n0 or any(len(r) != n1 for r in bg.models):
                         vs.append({'mechanism': 'models-shape', 'message': 'models has shape %s for an array (%d, %d)'
@@ -283,7 +297,7 @@ def make_case(rng, shape=None, axis=None, kind=None):
         prev = gen_rows(rng, n0 * m1, nsamp, fs, lo, hi).reshape(n0, m1, nsamp)
         refit_from = prev if rng.random() < 0.8 else prev[:, 0, :]
     return dict(sigs=sigs, fs=fs, f_range=(lo, hi), kwargs=kw, kw_kind=kind, axis=axis, refit_from=refit_from, alias=alias,
-                layout=['C', 'C', 'F', 'T'][int(rng.integers(0, 4))], reuse_options=bool(rng.random() < 0.35),
+                layout=['C', 'C', 'F', 'T'][int(rng.integers(0, 4))], reuse_options=bool(rng.random() < 0.35), buffer_history=bool(rng.random() < 0.5),
                 return_samples=bool(rng.random() < 0.7), n_jobs=int(rng.choice([1, 2, -1])), api=api,
                 delay_seed=int(rng.integers(0, 1 << 30)),
                 progress=[None, None, 'tqdm', 'tqdm.notebook'][int(rng.integers(0, 4))], fake_tqdm=bool(rng.random() < 0.5))
@@ -306,6 +320,15 @@ def run(sh):
         if i % sh.nshards == sh.shard:
             shape = [(2, 3), (3, 2), (2, 2), (1, 3), (3, 1)][(i + sh.seed) % 5]
             guarded(sh, run_one, sh, make_case(rng, shape=shape, axis=ax, kind=k), 'class_cover')
+    # in every run: a 2-D option grid of pairwise different entries on arrays with unequal extents > 1 (row- vs column-major)
+    for i, shape in enumerate([(2, 3), (3, 2)]):
+        if (len(classes) + i) % sh.nshards == sh.shard:
+            c = make_case(rng, shape=shape, axis=(0, 1), kind='2d')
+            if c.get('alias'):
+                c = make_case(rng, shape=shape, axis=(0, 1), kind='2d')
+            if not c.get('alias'):
+                sh.note('distinct_2d_option_grid_on_unequal_extents')
+            guarded(sh, run_one, sh, c, 'class_cover')
     K = 2 if sh.tier == 'quick' else 150
     for it in range(K):
         guarded(sh, run_one, sh, make_case(rng))
